@@ -9,7 +9,7 @@ Neg1 == -1
 Export ==
     phase = "done" =>
         LET I == IdealNow
-        IN PrintT(<<"REPLAY", ToJson([family |-> Family, doc |-> FullDoc, rawdoc |-> doc, lim |-> lim, str |-> StrMode, iv |-> InitVal,
+        IN PrintT(<<"REPLAY", ToJson([family |-> Family, doc |-> FullDoc, rawdoc |-> doc, lim |-> lim0, str |-> StrMode, iv |-> InitVal,
                                      dev |-> Deviations,
                                      res |-> result, items |-> Proj(out),
                                      stale |-> ~NoStale(out),
@@ -26,7 +26,7 @@ Export ==
 Given == ndJsonDeserialize(IOEnv.GIVEN)
 
 InitGiven ==
-    /\ \E i \in 1..Len(Given) : doc = Given[i].rawdoc /\ lim = Given[i].lim
+    /\ \E i \in 1..Len(Given) : doc = Given[i].rawdoc /\ lim = Given[i].lim /\ lim0 = Given[i].lim
     /\ phase = "run"
     /\ ret = RetNone
     /\ depth = 0 /\ scopes = <<InitScope(UNDEF)>>
